@@ -8,12 +8,12 @@ for d in sorted(glob.glob('/verif/seeded/C*')):
     except Exception:
         continue
     ev = m.get('evaluated', {})
-    chk = ev.get('check', {})
+    chk = ev.get('check_after_strengthening') or ev.get('check', {})
     what = (m.get('what_changed') or '').replace('\n', ' ').replace('|', '/')
     needs = (m.get('needs_to_manifest') or '').replace('\n', ' ').replace('|', '/')
     rows.append((os.path.basename(d), what[:260], needs[:220], 'yes' if m.get('valid_seed') else 'demo flaky/see note',
                  'CAUGHT' if m.get('detected') else 'missed', ', '.join(k.replace('key: ', '') for k in (chk.get('keys') or [])[:2])[:160],
-                 m.get('note', '')))
+                 ('initially missed, check strengthened. ' if m.get('initially_detected') is False and m.get('detected') else '') + m.get('note', '')))
 out = ['# Seeded breaking changes', '',
        'Each directory holds `patch.diff` (apply with `git -C /repo apply`, undo with `git -C /repo checkout -- .`), `demo.py` '
        '(exits 1 with the change, 0 without) and `meta.json` (what changed, what it needs to manifest, tests run, and the result of '
